@@ -312,22 +312,17 @@ theorem lines_parent_ok (t : String) (i : PyVal) (ht : ParentTag t) (lines : Lis
 
 /-! ### table cells, rows, tables -/
 
-/-- **PageXMLTableCell(...)** (then set_parentage) on well-formed lines that have a text -/
+/-- **PageXMLTableCell(...)** (then set_parentage) on well-formed lines (with or without text) -/
 theorem Cell.build_ok (id : PyVal) (ts : List String) (m : Meta) (coords : Option Pts) (row : PyVal) (col : Option Int)
     (cellSpan rowSpan header cornerpoints orientation : PyVal) (lines : List Line)
     (hc : coords ≠ some []) (hcp : canon cornerpoints = true) (hor : canon orientation = true)
-    (hl : ∀ l ∈ lines, l.ok = true ∧ l.text.isSome = true) :
+    (hl : ∀ l ∈ lines, l.ok = true) :
     (Cell.build id ts m coords row col cellSpan rowSpan header cornerpoints orientation lines).ok = true := by
-  have hp := lines_parent_ok "table_cell" id parentTag_cell lines (fun l h => (hl l h).1)
+  have hp := lines_parent_ok "table_cell" id parentTag_cell lines hl
   simp only [Cell.build, Cell.setParentage]
   rw [lines_noop "table_cell" id _ hp]
   simp only [Cell.ok, Bool.and_eq_true, List.all_eq_true]
-  refine ⟨⟨⟨mkHdr_ok _ ts id m coords nodup_cell hc, hcp⟩, hor⟩, ?_⟩
-  intro l hl'
-  refine ⟨hp l hl', ?_⟩
-  simp only [List.mem_map] at hl'
-  obtain ⟨l0, hl0, rfl⟩ := hl'
-  exact (hl l0 hl0).2
+  exact ⟨⟨⟨mkHdr_ok _ ts id m coords nodup_cell hc, hcp⟩, hor⟩, hp⟩
 
 theorem Cell.build_jv (id : PyVal) (ts : List String) (m : Meta) (coords : Option Pts) (row : PyVal) (col : Option Int)
     (cellSpan rowSpan header cornerpoints orientation : PyVal) (lines : List Line)
